@@ -97,6 +97,19 @@ def check_prefix_map(items, ctx=None):
                 c2 = Converter.from_extended_prefix_map(epm)
                 if not same_converter(c2, conv):
                     fails.append(("from_extended_prefix_map/differs-from-equivalent-prefix-map", f"{where}"))
+                # the signature accepts any iterable of dicts or Record objects, also one-shot ones
+                recs = [curies.Record(**d) for d in epm]
+                shapes = {"tuple": tuple(epm), "generator": (d for d in epm), "iterator": iter(epm), "records": list(recs),
+                          "records-generator": (r for r in [curies.Record(**d) for d in epm]), "mixed": [recs[0], *epm[1:]] if epm else []}
+                for shape, data in shapes.items():
+                    c3 = Converter.from_extended_prefix_map(data)
+                    if not same_converter(c3, conv):
+                        fails.append((f"from_extended_prefix_map/depends-on-the-kind-of-iterable/{shape}", f"{where}: given as {shape} the result has {len(c3.records)} records"))
+                c4 = Converter(r for r in [curies.Record(**d) for d in epm])
+                if not same_converter(c4, conv):
+                    fails.append(("constructor/depends-on-the-kind-of-iterable/generator", f"{where}"))
+                if ctx is not None:
+                    ctx.count("iterable_shapes", len(shapes) + 1)
                 file_variants(curies.load_extended_prefix_map, epm, c2, fails, where, "from_extended_prefix_map", ctx)
             except Exception as e:  # noqa
                 fails.append(("from_extended_prefix_map/raises", f"{where}: {type(e).__name__}: {e}"))
